@@ -1336,6 +1336,9 @@ func (r Reference) ObjValue() Object {
 	if v == r {
 		panic("Self reference")
 	}
+	if v == nil { // deleted (by another call frame) after the reference was made.
+		return Error{Value: "identifier not found: " + r.Name}
+	}
 	return v
 }
 
